@@ -265,10 +265,14 @@ def run(ctx):
     td = P.drop
     ctx.ob("C20.4", "pool|has-destructor", "the pool has a destructor that retires its workers", td is not None, P.tp)
     if td is not None and isinstance(MIN, int):
+        td = inline.inlined(facts, td.id, extern_ok=Q.std_small)       # with the private helpers it stores / notifies through
         ctx.touch(td)
         st = [(bb, t2) for bb, t2 in td.calls() if call_matches(t2, r"atomic::Atomic(::<usize>|Usize)::store$") and P.counter_of(td, td.origin(t2["args"][0])) == P.live_field]
         na = [bb for bb, t2 in td.calls() if call_is(t2, "std::sync::Condvar::notify_all")]
-        ok = len(st) == 1 and isinstance(op_const(st[0][1]["args"][1]), int) and op_const(st[0][1]["args"][1]) > MIN and bool(na) and td.dominates(st[0][0], na[0], unwind=False)
+        def stored(t2):
+            o_ = td.origin(t2["args"][1])
+            return o_[1] if o_[0] == "const" and isinstance(o_[1], int) and not isinstance(o_[1], bool) else None
+        ok = len(st) == 1 and stored(st[0][1]) is not None and stored(st[0][1]) > MIN and bool(na) and td.dominates(st[0][0], na[0], unwind=False)
         ctx.ob("C20.4", "pool-drop|retires-everyone", "dropping the pool raises the live counter above the minimum, then wakes every parked worker (so each re-evaluates and takes the timed branch)", ok, "%s:%d" % (td.file, td.line))
     # a dispatch wakes ONE worker: waking all of them restarts the idle period of every worker that finds nothing to do
     for g2, bb2, t2 in facts.all_calls(lambda t2: call_is(t2, "std::sync::Condvar::notify_all")):
